@@ -104,8 +104,10 @@ def harnesses(tier):
             continue
         hs.append(Harness(name, "context stack %s (r = regular, v = volatile), variable x present in the contexts of mask %d; content of "
                           "every entry (value or none, exported, read-only) and the scope symbolic" % (shape, m),
-                          STEP_FNS.get(st, []) + [VS + "get"], STEP_CLAUSE.get(st, "debug"), timeout=900, mem_gb=16, mod=M,
-                          cover_group="c16_" + st))
+                          STEP_FNS.get(st, []) + [VS + "get"], STEP_CLAUSE.get(st, "debug"),
+                          # a new variable under every scope (mask 0) is the largest formula: 16 GB was not enough with a volatile top
+                          timeout=1800 if (st == "assign" and m == 0) else 900, mem_gb=28 if (st == "assign" and m == 0) else 16,
+                          mod=M, cover_group="c16_" + st))
     return hs
 
 
